@@ -112,10 +112,10 @@ def parseMsg (w : String) : Option PMsg :=
   match w.toList with
   | ['n'] => some .noop
   | ['f'] => some .fail
-  | 's' :: r => (String.mk r).toNat?.map .spend
-  | 'i' :: r => (String.mk r).toNat?.map .payIn
+  | 's' :: r => (String.ofList r).toNat?.map .spend
+  | 'i' :: r => (String.ofList r).toNat?.map .payIn
   | 'd' :: r =>
-    match (String.mk r).splitOn "_" with
+    match (String.ofList r).splitOn "_" with
     | [p, n] => do pure (.govDeposit (← p.toNat?) (← n.toNat?))
     | _ => none
   | _ => none
@@ -130,8 +130,9 @@ def parseEvent (w : String) : Option Op :=
     pure (.pass p ms)
   | _ => none
 
+/-- what the harness observes: nothing is committed by a block whose end-blocker failed -/
 def showState (s : State) : String :=
-  s!"{s.bal} {total s.deps} {if s.halted then 1 else 0}"
+  if s.halted then "halt" else s!"{s.bal} {total s.deps}"
 
 /-- one escrow line; `none` = not an escrow line -/
 def eline (c : Code) (s : State) (ws : List String) : Option (State × String) :=
